@@ -310,6 +310,7 @@ func (ex *Exec) callStaticBind(fr *Frame, st *State, fn *ssa.Function, args []Va
 		return []Outcome{{St: st}}
 	}
 	ex.guardedArgs(fr, st, fn, args, pos)
+	ex.calleeSections(fr, st, fn, args)
 	{
 		ns, ts := fnParamInfo(fn)
 		ex.checkAsserts(fr, st, key, ns, ts, args, pos)
